@@ -8,7 +8,8 @@
    per child hop" is observed by the harness with a counting dict. *)
 From Coq Require Import List NArith Bool Sorted.
 From PyTrie.Base Require Import Bytes Result Nibbles.
-From PyTrie.Hexary Require Import Raw Tree TreeTraverse Tree_aux Tree_map Tree_unique Tree_traverse_proofs.
+From PyTrie.Base Require Import AMap Rlp.
+From PyTrie.Hexary Require Import Raw Tree TreeTraverse Tree_aux Tree_map Tree_unique Tree_traverse_proofs D D_read Refine_read.
 Import ListNotations.
 
 (* blank exactly when no stored key starts with the path *)
@@ -45,10 +46,10 @@ Theorem C08_annotation : forall n, canonical n = true ->
       forall q, tget n q = if nibbles_eqb q (a_suffix a) then a_value a else []
   | TExt => a_suffix a = [] /\ a_value a = [] /\ tget n [] = [] /\
       exists p, a_segs a = [p] /\ p <> [] /\ nibs_ok p = true /\
-        (forall q, stored n q -> exists r, q = p ++ r) /\
-        exists r1 r2, stored n (p ++ r1) /\ stored n (p ++ r2) /\ hd_error r1 <> hd_error r2
+        (forall q, Tree_unique.stored n q -> exists r, q = p ++ r) /\
+        exists r1 r2, Tree_unique.stored n (p ++ r1) /\ Tree_unique.stored n (p ++ r2) /\ hd_error r1 <> hd_error r2
   | TBranch => a_suffix a = [] /\ a_value a = tget n [] /\ StronglySorted nkey_lt (a_segs a) /\
-      (forall s, In s (a_segs a) <-> exists i, s = [i] /\ exists q, stored n (i :: q)) /\
+      (forall s, In s (a_segs a) <-> exists i, s = [i] /\ exists q, Tree_unique.stored n (i :: q)) /\
       two_heads n
   end.
 Proof. exact annotate_spec. Qed.
@@ -86,3 +87,13 @@ Print Assumptions C08_from.
 Theorem C08_root : forall t, ttraverse t [] = TAt t.
 Proof. exact Tree_traverse_proofs.C08_root. Qed.
 Print Assumptions C08_root.
+
+(* database level: on a store that represents a tree, traverse(path) returns exactly the
+   annotation of the tree-level result (sub_segments, value, suffix, raw node, type), and a
+   partial traversal raises TraversedPartialPath with exactly the tree-level fields and
+   simulated node *)
+Theorem C08_traverse_refines : forall H BNH, (forall x, length (H x) = 32%nat) -> BNH = H (rlp_encode (RStr [])) ->
+  forall m r t, represents H m r t -> wf t = true -> ext_ok t = true -> decodable H t -> no_blank_collision H BNH t ->
+  forall p, nibs_ok p = true -> fst (traverse BNH p (plain m r)) = traverse_spec H t p.
+Proof. exact Refine_read.traverse_refines. Qed.
+Print Assumptions C08_traverse_refines.
